@@ -137,6 +137,8 @@ EnteredOnce == \A p \in {m.path : m \in cs.mod} : Cardinality({i \in 1..Len(ev) 
 CompletionOrder == \A j \in 1..Len(mods) : \A i \in 1..Len(mods[j].tg) : mods[j].tg[i].id < j
 CycleIsError == (phase = "done" /\ \E i \in 1..Len(ev) : ev[i][1] = "Cycle") => (\E j \in 1..Len(mods) : ~mods[j].ok) \/ ~Top.ok
 Terminates == phase = "load" => ENABLED LoadNext
+\* liveness (checked with WF_lvars(LoadNext) in MC_Modules): loading ends, whatever the graph - also a cyclic one
+LoadEnds == <>(phase = "done")
 Bounded == Len(ev) <= 2 * Cardinality(cs.mod) + Len(cs.main.dirs) + 4 * Cardinality(cs.mod) * 4
 
 -----------------------------------------------------------------------------
